@@ -255,6 +255,8 @@ def impl_predicates(pid, op, impl):
         hits.append(("C15" if iskey else "C05", "a decoder accepted a label that is a tagged item, not an integer or text"))
         if not iskey:
             hits.append(("C13", "a decoder accepted a label that is a tagged item, not an integer or text"))
+    if "ALG-NOT-ON-WIRE" in impl:
+        hits.append(("C04", "a verifier was invoked although the protected bytes as received do not name its algorithm as a plain integer: " + impl[impl.index("ALG-NOT-ON-WIRE"):][:40]))
     if "empty-signature-emitted" in impl:
         hits.append(("C20", "a structure with an empty signature was encoded"))
     if impl.startswith("nondet"):
